@@ -592,6 +592,10 @@ pub fn run_c07(ctx: &Ctx) -> i32 {
     let mut spaces = vec![];
     spaces.push(alt_pair(Cfg::Mem, "/Z", Order::Asc, a22.clone()));
     spaces.push(alt_pair(Cfg::Mem, "/Z/Y", Order::Desc, a4.clone()));
+    // composites over multi-byte names through the altroot (byte offsets in its own fast paths)
+    let mb = Universe::new("U_mb{é,é/a,éa,éa/é}", &["/é", "/é/a", "/éa", "/éa/é"]);
+    spaces.push(alt_pair(Cfg::Mem, "/Z", Order::Asc, alphabet(mb.clone(), &[b"x"], 1, true)));
+    spaces.push(alt_pair(Cfg::Mem, "/é", Order::Asc, alphabet(u_names_small(), &[b"x"], 1, true)));
     // the three timestamp setters through the altroot (root included) against the twin
     let mut a_set = alphabet(u3(), &[b"x"], 1, false);
     a_set.setters = true;
